@@ -278,6 +278,12 @@ class StmtMixin:
                 for k, t in enumerate(target.elts):
                     self.assign(t, self.arr_read(st, v, [k]), st, fr)
                 return
+            if isinstance(v, Obj) and v.kind is None:
+                # an opaque object unpacked as a tuple: its items are the entries of the sequence view of the object
+                seq = Obj(v.ref, 'tuple', 'seq', 'ref', 1)
+                for k, t in enumerate(target.elts):
+                    self.assign(t, self.arr_read(st, seq, [k]), st, fr)
+                return
             raise Unsupported('unpacking of %r' % (v,))
         if isinstance(target, ast.Attribute):
             base = self.ev(target.value, st, fr)
